@@ -474,7 +474,11 @@ func init() {
 			fx.Floor("shape_invariants_of_factorization_types", 2)
 			fx.Floor("loops_between_the_two_dimensions", 2)
 			fx.Floor("field_resizes", 6)
+			fx.Floor("factorize_failure_returns", 5)
 			res.Merge(fx)
+			im := initx.Run(def, "./mat")
+			im.Floor("init_methods", 8)
+			res.Merge(im)
 			ex := errx.Run(def, core.Pkgs("./mat"))
 			ex.Floor("error_definitions", 8)
 			res.Merge(ex)
